@@ -85,6 +85,8 @@ def confirm(ctx, module, cid, want_class):
         raise Broken("case %d not found for confirmation" % cid)
     if want_class.startswith("hook-trace"):
         module = "TraceBuild"
+    if want_class.startswith("intern-trace"):
+        module = "TraceIntern"
     rd = os.path.join(vlib.ROOT, "replays", ctx.prop)
     if os.environ.get("VERIF_REPO"):      # development runs against a scratch copy keep their replays apart
         rd = os.path.join(vlib.ROOT, "replays", "_scratch", "%s-%d" % (ctx.prop, os.getpid()))
@@ -154,6 +156,7 @@ def replay(ctx, path):
     trace, verdicts, st = judge_file(ctx, module, path, "replay", budget="30s", workers=1)
     if ctx.prop == "C07":
         verdicts += judge_file(ctx, "TraceBuild", path, "replayb", budget="30s", workers=1)[1]
+        verdicts += judge_file(ctx, "TraceIntern", path, "replayi", budget="30s", workers=1)[1]
     rc = 0
     for (i, p, r) in verdicts:
         print("verdict case=%d property=%s %s" % (i, p, r))
@@ -724,6 +727,10 @@ def plan_C07(ctx):
         neg_rejected = len(vn)
         if neg_rejected == 0:
             raise Broken("trace validation against CodecBuild is vacuous: the model of the pre-repair protocol accepts every recorded hook log")
+    vi, ji = vlib.judge(ctx.work, "TraceIntern", t1, ctx.env, ctx.open, tag="intern")
+    verdicts += vi
+    for k in ("generated", "distinct"):
+        jst[k] += ji[k]
     log("hook logs validated against CodecBuild: %d events, %d model steps, %d rejected; pre-repair model rejects %s of a fifth of them" % (jb["events"], jb["distinct"], len(vb), neg_rejected))
     nhooks = 0
     for line in open(t1):
@@ -740,7 +747,8 @@ def plan_C07(ctx):
         "one P (GOMAXPROCS=1) during a scheduled replay so that sync.Pool hand-over between goroutines is deterministic"],
         extra={"negative_control_model_rejects_pre_repair_protocol": neg_ok, "yield_points_granted": nhooks,
                "hook_logs_validated_against_CodecBuild": jb["events"], "CodecBuild_steps_matched": jb["distinct"],
-               "hook_logs_rejected_by_pre_repair_model_in_sample": neg_rejected})
+               "hook_logs_rejected_by_pre_repair_model_in_sample": neg_rejected,
+               "Intern_steps_matched": ji["distinct"] - ji["events"]})
 
 
 def plan_C06(ctx):
